@@ -123,6 +123,105 @@ int main(int argc, char** argv) {
         }
         return 0;
     }
+    if (mode == "promogames") {   // h_proof promogames <seed> <n> <gamesOut> <fensOut>
+        // Short games built around ONE promotion: a pawn of one side runs (captures towards the last rank when blocked) and promotes to a
+        // piece drawn uniformly from Q, R, B, N; the other side first plays a small set-up (nothing, a few pawn pushes next to the
+        // runner's file, or a fianchetto whose bishop the runner takes on its way into the corner) and then random moves that leave the
+        // runner alone.  The goal positions have a promoted piece standing where its ordinary approaches may all be blocked - the cases
+        // the distance heuristic decides by its promotion rules (one per piece type and colour).
+        U64 seed = std::stoull(argv[2]);
+        int n = atoi(argv[3]);
+        std::ofstream gos(argv[4]), fos(argv[5]);
+        Random rnd(seed, 0xC17);
+        long promoted = 0;
+        for (int g = 0; g < n; g++) {
+            Position pos = TextIO::readFEN(TextIO::startPosFEN);
+            const bool runnerWhite = rnd.nextInt(2) == 0;
+            int runnerSq = (runnerWhite ? 8 : 48) + rnd.nextInt(8);
+            if (rnd.nextInt(2) == 0) runnerSq = (runnerWhite ? 8 : 48) + (rnd.nextInt(2) ? 0 : 7);      // rook pawns: the way into the corner
+            const int file = runnerSq % 8;
+            static const int promoW[] = {Piece::WQUEEN, Piece::WROOK, Piece::WBISHOP, Piece::WKNIGHT};
+            const int promoIdx = rnd.nextInt(4);
+            // set-up of the other side, written for a white helper (black runner) and mirrored for a black helper
+            std::vector<std::string> setup;
+            int menu = rnd.nextInt(4);
+            auto fileCh = [](int f) { return std::string(1, (char)('a' + f)); };
+            if (menu == 0 && (file == 0 || file == 7)) {
+                setup = file == 7 ? std::vector<std::string>{"g2g3", "f1g2"} : std::vector<std::string>{"b2b3", "c1b2"};
+            } else if (menu == 1) {
+                for (int k = 0; k < 1 + (int)rnd.nextInt(3); k++) {
+                    int f = file + (int)rnd.nextInt(5) - 2;
+                    if (f < 0 || f > 7) continue;
+                    setup.push_back(fileCh(f) + "2" + fileCh(f) + "3");
+                }
+            } else if (menu == 2) {
+                int f = file == 0 ? 1 : file == 7 ? 6 : file + (rnd.nextInt(2) ? 1 : -1);
+                setup.push_back(fileCh(f) + "2" + fileCh(f) + "3");
+            }
+            if (runnerWhite)
+                for (auto& mv : setup) { mv[1] = (char)('1' + ('8' - mv[1])); mv[3] = (char)('1' + ('8' - mv[3])); }
+            size_t setupIdx = 0;
+            std::string line;
+            int after = -1;
+            for (int p = 0; p < 60; p++) {
+                MoveList ml; legalMoves(pos, ml);
+                if (ml.size == 0) break;
+                Move m;
+                const bool runnerTurn = pos.isWhiteMove() == runnerWhite;
+                if (after >= 0) {
+                    if (after-- == 0) break;
+                    m = ml[rnd.nextInt(ml.size)];
+                } else if (runnerTurn) {
+                    std::vector<Move> rm;
+                    for (int i = 0; i < ml.size; i++)
+                        if (ml[i].from().asInt() == runnerSq) {
+                            if (ml[i].promoteTo() != Piece::EMPTY && ml[i].promoteTo() != promoW[promoIdx] + (runnerWhite ? 0 : 6)) continue;
+                            rm.push_back(ml[i]);
+                        }
+                    if (!rm.empty()) {
+                        m = rm[rnd.nextInt((int)rm.size())];
+                        // prefer going straight while possible (captures only when there is a reason: they are always offered too)
+                        for (const Move& c : rm) if (c.to().getX() == c.from().getX() && rnd.nextInt(3)) { m = c; break; }
+                    } else {
+                        for (int t = 0; t < 40; t++) {       // waiting move: a piece, not a pawn, no capture
+                            const Move& c = ml[rnd.nextInt(ml.size)];
+                            int pc = pos.getPiece(c.from());
+                            if (pc != Piece::WPAWN && pc != Piece::BPAWN && pos.getPiece(c.to()) == Piece::EMPTY) { m = c; break; }
+                        }
+                        if (m.isEmpty()) m = ml[rnd.nextInt(ml.size)];
+                    }
+                } else {
+                    while (setupIdx < setup.size() && m.isEmpty()) {
+                        Move want = TextIO::uciStringToMove(setup[setupIdx++]);
+                        for (int i = 0; i < ml.size; i++) if (ml[i] == want) m = want;
+                    }
+                    for (int t = 0; t < 60 && m.isEmpty(); t++) {
+                        const Move& c = ml[rnd.nextInt(ml.size)];
+                        if (c.to().asInt() == runnerSq) continue;                       // the runner is not taken
+                        if (pos.getPiece(c.to()) != Piece::EMPTY && rnd.nextInt(4)) continue;
+                        // men the runner may want to take (two ranks ahead of it, neighbouring files) stay where they are
+                        int dy = c.from().getY() - (runnerSq / 8), dx = c.from().getX() - file;
+                        if (std::abs(dx) <= 1 && (runnerWhite ? (dy >= 1 && dy <= 2) : (dy <= -1 && dy >= -2)) && rnd.nextInt(5)) continue;
+                        m = c;
+                    }
+                    if (m.isEmpty()) m = ml[rnd.nextInt(ml.size)];
+                }
+                const bool wasRunner = m.from().asInt() == runnerSq && runnerTurn && after < 0;
+                UndoInfo ui; pos.makeMove(m, ui);
+                line += (line.empty() ? "" : " ") + TextIO::moveToUCIString(m);
+                if (wasRunner) {
+                    runnerSq = m.to().asInt();
+                    if (m.promoteTo() != Piece::EMPTY) { after = rnd.nextInt(5); promoted++; }
+                } else if (after < 0 && pos.getPiece(Square(runnerSq)) != (runnerWhite ? Piece::WPAWN : Piece::BPAWN)) {
+                    after = rnd.nextInt(3);             // the runner was lost after all: end the game soon
+                }
+            }
+            gos << line << "\n";
+            { Position f(pos); TextIO::fixupEPSquare(f); fos << TextIO::toFEN(f) << "\n"; }
+        }
+        printf("{\"games\":%d,\"with_promotion\":%ld}\n", n, promoted);
+        return 0;
+    }
     if (mode == "pgn") {        // h_proof pgn <gamesFile> <outDir>: game k as <outDir>/g<k>.pgn (initial paths for 'proofgame -ipgn')
         auto games = readGames(argv[2]);
         for (size_t k = 0; k < games.size(); k++) {
